@@ -109,6 +109,12 @@ fn c29_resource_store_confined_to_root_with_symlinks() {
     fs::write(root.join("a.txt"), b"inside-a").unwrap();
     fs::write(root.join("sub/b.txt"), b"inside-b").unwrap();
     fs::write(outside.join("secret.txt"), b"SECRET").unwrap();
+    // decoys: files OUTSIDE the root that have the same names as files inside it, at the places where the operating
+    // system resolves `<symlinked dir>/../<name>`
+    fs::write(top.join("a.txt"), b"SECRET").unwrap();
+    fs::create_dir_all(top.join("sub")).unwrap();
+    fs::write(top.join("sub/b.txt"), b"SECRET").unwrap();
+    fs::write(outside.join("a.txt"), b"SECRET").unwrap();
     symlink("sub", root.join("link_in")).unwrap();
     symlink("../outside", root.join("link_out")).unwrap();
     symlink("../outside/secret.txt", root.join("link_file_out")).unwrap();
